@@ -227,8 +227,8 @@ def run(ctx):
         v = r.value
         if isinstance(v, ast.Call) and any(isinstance(a, ast.Starred) for a in v.args) and any(k.arg is None for k in v.keywords):
             okf = True
-        for n in repo.walk_with_tables(cc, v):
-            if isinstance(n, ast.Dict):
+        for n in list(repo.walk_with_tables(cc, v)) + list(repo.walk_with_tables(cc)):  # the table: in the return expression, a local, or a module constant
+            if isinstance(n, ast.Dict) and n.keys and all(k is not None and isinstance(A.const_value(k), str) for k in n.keys) and keys is None:
                 keys = {A.const_value(k): A.dotted(val) for k, val in zip(n.keys, n.values)}
     if okf:
         ctx.holds(r5, f"{UT}::create_calculator", "*args, **kwargs forwarded to the calculator class")
